@@ -43,8 +43,18 @@ func genC13(t *rapid.T) c13Case {
 	}
 	b := a
 	b.Salt = append(vstat.Bytes{}, a.Salt...)
-	switch rapid.IntRange(0, 5).Draw(t, "vary") {
+	switch rapid.IntRange(0, 6).Draw(t, "vary") {
 	case 0:
+	case 6:
+		// boundary shift: the same bytes, split differently between context and salt
+		// (the tail of the context moves to the front of the salt)
+		rs := []rune(a.Ctx)
+		if len(rs) > 0 {
+			k := rapid.IntRange(0, len(rs)-1).Draw(t, "split")
+			b.Ctx = string(rs[:k])
+			b.SaltNil = false
+			b.Salt = append(vstat.Bytes(string(rs[k:])), a.salt()...)
+		}
 	case 1:
 		b.Key = (a.Key + 1 + rapid.IntRange(0, 2).Draw(t, "dk")) % 4
 	case 2:
